@@ -47,6 +47,10 @@ def generate(tape, tier="quick"):
             chain = [{"kind": "delay_fixed", "d": tape.choice([1, 2, 3, 5])}]
             if tape.chance(1, 3):
                 chain.append(gen_adapter(tape, PASS))
+            if tape.chance(1, 3):
+                # a push-based end point behind the delay: notified with the publication time, it asks the source for
+                # an older time during that very notification
+                chain.append(gen_adapter(tape, ["next", "prev", "linear", "step"]))
         spec = {"chain": chain}
         # share a prefix of stateless adapters with an earlier consumer (one adapter instance, two targets)
         bases = [k for k, b in enumerate(cons) if "shared_with" not in b and b["chain"] and
